@@ -36,6 +36,17 @@ def anchors():
             iu.chunk_ranges]
 
 
+class Anything(object):
+    """Compares equal to everything (what unittest.mock.ANY does)."""
+    def __eq__(self, other):
+        return True
+
+    def __ne__(self, other):
+        return False
+
+    __hash__ = object.__hash__
+
+
 def mk(kind, data):
     if kind == 'list':
         return list(data)
@@ -121,6 +132,23 @@ def check_chunked(c, st):
         return ('chunked:%s%s%s' % (kind if c.get('data_n') is None else 'long-input', ':fill' if kw else '',
                                     ':count' if c['count'] is not None else ''),
                 'chunked(%s, %d, count=%r, %r) = %s, want %s' % (clip(data), size, c['count'], kw, clip(got), clip(want)))
+    if kind in ('list', 'tuple', 'iter', 'gen') and len(elems) >= 1 and c.get('data_n') is None:
+        # elements that answer True to every == (unittest.mock.ANY, matcher objects): the chunks hold the very same
+        # objects, in order, whatever they compare equal to - compared by identity
+        objs = [Anything() if (i_ % 3 == len(elems) % 3 or i_ == len(elems) - 1) else object() for i_ in range(len(elems))]
+        want_ids = [[id(o) for o in objs[i_:i_ + size]] for i_ in range(0, len(objs), size)]
+        for form in ('list', 'iter'):
+            if form == 'list':
+                got_a = outcome(lambda: iu.chunked(mk(kind, objs), size))
+            else:
+                got_a = outcome(lambda: list(iu.chunked_iter(mk(kind, objs), size)))
+            st.monitor_evals += 1
+            ids = [[id(o) for o in ch] for ch in got_a[1]] if got_a[0] == 'ok' else got_a
+            if ids != want_ids:
+                return ('chunked:elements-equal-to-everything', 'chunked%s(<%d objects, some of which compare equal to everything>, %d) '
+                        'gives chunks of lengths %s, the input cut into chunks has lengths %s (or other objects / order)'
+                        % ('_iter' if form == 'iter' else '', len(objs), size,
+                           [len(ch) for ch in got_a[1]] if got_a[0] == 'ok' else got_a, [len(ch) for ch in want_ids]))
     if kind in ('iter', 'gen') and c['count'] is not None:
         # paging through a one-shot iterator: chunked(it, size, count) takes count chunks and leaves the rest in the
         # iterator for the next page - page after page gives back the input, nothing is pulled out and thrown away
